@@ -55,7 +55,8 @@ const (
 	c03AccU7       = 7
 	c03AccU8       = 8 // further sending accounts (own keys)
 	c03AccU9       = 9
-	c03NAcc        = 10
+	c03AccFwd      = 10 // the forwarder (batching) contract, hand-assembled, deployed on every chain
+	c03NAcc        = 11
 )
 
 type c03PacketRec struct {
@@ -106,6 +107,13 @@ func newC03World(t *testing.T) *c03World {
 		}
 		w.keys[a] = k
 		w.acc[a] = common.BytesToAddress(k.PubKey().Address().Bytes())
+	}
+	fk, err := ethsecp256k1.GenerateKey()
+	if err != nil {
+		t.Fatal(err)
+	}
+	for i := 0; i < c03NChains; i++ {
+		w.acc[c03AccFwd] = w.deployForwarder(i, fk)
 	}
 	// clients between every ordered pair (no relayers yet)
 	for i := 0; i < c03NChains; i++ {
@@ -171,6 +179,12 @@ func (w *c03World) sendTx(i int, to common.Address, value *big.Int, data []byte)
 
 // sendTxAs: the same for any of the keyed accounts (0, 8, 9).
 func (w *c03World) sendTxAs(i, acct int, to common.Address, value *big.Int, data []byte) (failed bool, vmErr string, events sdk.Events) {
+	failed, vmErr, events, _ = w.sendTxLogs(i, acct, to, value, data)
+	return
+}
+
+// sendTxLogs additionally returns the EVM logs of the receipt.
+func (w *c03World) sendTxLogs(i, acct int, to common.Address, value *big.Int, data []byte) (failed bool, vmErr string, events sdk.Events, logs []*evm.Log) {
 	c := w.ch[i]
 	key, ok := w.keys[acct]
 	if !ok {
@@ -187,9 +201,9 @@ func (w *c03World) sendTxAs(i, acct int, to common.Address, value *big.Int, data
 	}
 	rsp, err := c.App.EvmKeeper.EthereumTx(sdk.WrapSDKContext(sctx), tx)
 	if err != nil {
-		return true, err.Error(), nil
+		return true, err.Error(), nil, nil
 	}
-	return rsp.VmError != "", rsp.VmError, sctx.EventManager().Events()
+	return rsp.VmError != "", rsp.VmError, sctx.EventManager().Events(), rsp.Logs
 }
 
 func (w *c03World) deployERC20(i int) common.Address {
